@@ -1,6 +1,12 @@
 package main
 
-import "go/types"
+import (
+	"fmt"
+	"go/types"
+	"strings"
+
+	"golang.org/x/tools/go/ssa"
+)
 
 // C19 Event feeds deliver every value exactly once to every live subscriber (locking discipline only).
 
@@ -38,6 +44,65 @@ func runC19(c *Ctx) {
 		c.Extra["guarded_accesses"] = n
 	})
 	c.Min("C19-R2", 20)
+	c.Rule("C19-R5", "structure of the send-case list that Send's bookkeeping relies on", func() {
+		// Send keeps sendCases partitioned as [removeSub | pending | served]; its removeSub branch relies on delete
+		// preserving order and on deactivate moving exactly the chosen case behind the pending prefix.
+		del := c.Fn("aqua/event:(caseList).delete")
+		fd := c.Facts(del)
+		for _, rs := range fd.AllReturns() {
+			t := fd.tr.term(rs.State, rs.Ret.Results[0], 0)
+			c.Ob("C19-R5", "caseList.delete is order preserving: append(cs[:i], cs[i+1:]...)", c.Position(rs.Ret.Pos()),
+				t == "append(caseList#0[:int#0], caseList#0[(int#0 + 1):])", "returns "+t)
+		}
+		da := c.Fn("aqua/event:(caseList).deactivate")
+		fa := c.Facts(da)
+		okRet := false
+		for _, rs := range fa.AllReturns() {
+			t := fa.tr.term(rs.State, rs.Ret.Results[0], 0)
+			okRet = t == "caseList#0[:(len(caseList#0) - 1)]"
+		}
+		var stores []string
+		for _, b := range da.Blocks {
+			for _, ins := range b.Instrs {
+				if st, ok := ins.(*ssa.Store); ok {
+					if ia, ok := st.Addr.(*ssa.IndexAddr); ok {
+						stores = append(stores, fa.tr.term(nil, ia, 0)+"="+fa.tr.term(nil, st.Val, 0))
+					}
+				}
+			}
+		}
+		okSwap := len(stores) == 2 && stores[0] == "caseList#0[int#0]=caseList#0[(len(caseList#0) - 1)]" && stores[1] == "caseList#0[(len(caseList#0) - 1)]=caseList#0[int#0]"
+		c.Ob("C19-R5", "caseList.deactivate swaps the chosen case with the last and shrinks by one", c.FnPos(da), okRet && okSwap, fmt.Sprintf("stores %v", stores))
+		// the inbox is drained into sendCases atomically: while holding both the send token and mu
+		send := c.Fn("aqua/event:(*Feed).Send")
+		_, _, held := lockAnalysis(send, cfg, true)
+		n := 0
+		for _, b := range send.Blocks {
+			for _, ins := range b.Instrs {
+				st, ok := ins.(*ssa.Store)
+				if !ok {
+					continue
+				}
+				fa2, ok := st.Addr.(*ssa.FieldAddr)
+				if !ok || fieldName(fa2) != "inbox" {
+					continue
+				}
+				n++
+				h := held[st]
+				c.Ob("C19-R5", "Feed.Send empties the inbox only while holding both the send token and mu (a subscription is always in exactly one list)", c.Position(st.Pos()),
+					h["Feed#0.sendLock"] && h["Feed#0.mu"], fmt.Sprintf("held: %v", keysOf(h)))
+			}
+		}
+		c.Ob("C19-R5", "Feed.Send drains the inbox", c.FnPos(send), n == 1, fmt.Sprintf("%d stores to inbox", n))
+		// a removal request for an unknown channel is never silently dropped: Send deletes the index it finds unconditionally
+		for _, s := range callSites(send, `^caseList\.delete$`) {
+			t := c.termOf(send, s.Common().Args[1])
+			_, lits := allHave(c.Facts(send).At(s), mustRe(`^select#0 == 0$|reflect\.Select\(.*\)#0 == 0$`))
+			c.Ob("C19-R5", "Feed.Send removes the found subscription unconditionally in the removeSub branch", c.Position(s.Pos()), strings.HasPrefix(t, "Feed#0.sendCases.find("), "delete("+t+") under "+lits)
+		}
+	})
+	c.Min("C19-R5", 5)
+
 	c.Rule("C19-R4", "feedSub.Unsubscribe runs remove + close(err) exactly once (sync.Once)", func() {
 		fn := c.Fn("aqua/event:(*feedSub).Unsubscribe")
 		sites := callSites(fn, `^Once\.Do$`)
